@@ -40,9 +40,9 @@ Definition qu_u := Map [("k", Scalar TInt SPlain "2")].
 Lemma scalar_keeps_local_quoting : m3 qu_o qu_o qu_u = Ok (Some (Map [("k", Scalar TInt SDouble "2")])).
 Proof. vm_compute. reflexivity. Qed.
 
-(* inference on: a document with an empty list cannot even be merged with itself *)
+(* inference on, a document with an empty list: FIXED in /repo (schema.IsAssociative skips empty lists) *)
 Definition el_d := Map [("f", Seq [])].
-Lemma empty_list_refused : m3 el_d el_d el_d = Err.
+Lemma empty_list_merges : m3 el_d el_d el_d = Ok (Some el_d).
 Proof. vm_compute. reflexivity. Qed.
 
 (* a keyed list missing locally comes back as [] *)
